@@ -1,6 +1,7 @@
 import CfbVerif.Phys.Zero
 import CfbVerif.Phys.Log
 import CfbVerif.Handle.Lemmas
+import CfbVerif.Phys.Grow
 /-!
 # C08 — bytes gained by growing a stream read as zero, whatever was there before
 
@@ -38,7 +39,7 @@ theorem C08_handle (h : H) (st : Handle.Bytes) (hi : Inv h st) (n : Nat) :
 
 theorem C08_grown_bytes_zero (c : Handle.Bytes) (n i : Nat) (h1 : c.length ≤ i) (h2 : i < n) :
     (Handle.resize c n)[i]? = some 0 := by
-  unfold Handle.resize zeros
+  unfold Handle.resize Handle.zeros
   have hl : (c.take n).length = c.length := by simp; omega
   rw [List.getElem?_append_right (by omega), hl]
   rw [List.getElem?_replicate]
@@ -71,5 +72,66 @@ theorem C08_setLen_log (h : H) (st : Handle.Bytes) (n : Nat) :
     applyLog st (setLenL h n) = (setLen h st n).2.1 := setLenL_store h st n
 
 example : (Handle.resize [1, 2, 3] 6)[4]? = some 0 := by decide
+
+end CfbVerif.Props.C08
+
+namespace CfbVerif.Props.C08
+open CfbVerif.Raw CfbVerif.Phys
+
+/-! ### the sector level: a regular stream grown by `set_len` (`Phys/Content.lean`, `Phys/Grow.lean`) -/
+
+/-- **growing a stream of at least 4096 bytes with `set_len`: every byte gained is zero in the
+sectors, every byte it had is kept** — for every state of the store machine that satisfies the
+allocation-level invariant `JR` (every reachable state, `regLen_reachable`), whatever the sectors
+taken from the free list held before and whatever was left behind the old end in the old last
+sector.  `ids` / `ids'` are the stream's chain before and after; `byteAt` is the byte at a stream
+offset through its sector.  The zeros come from `init_sector` for the sectors the chain gains
+(`kb_allocateSector`: FREE or new, so on no chain) and from `zero_old_tail` for the rest of the old
+last sector (`chainWrite_spec`). -/
+theorem C08_regular_grow_zero {g g' : G} {s n : Nat} (j : JR g.p g.L)
+    (hold : CUTOFF ≤ g.L s) (hgrow : g.L s ≤ n) (hstart : startOf g.p s ≠ END)
+    (h : gstep g (.resize s n) = .ok g') (hb : g'.p.fat.size ≤ MAXREG + 1) :
+    ∃ ids ids', chainIds g.p (startOf g.p s) = .ok ids ∧ Tr g'.p.fat ids' ∧ hdl ids' = hdl ids ∧
+      ids'.length = (g.p.S + n - 1) / g.p.S ∧
+      (∀ i, g.L s ≤ i → i < n → byteAt g'.p ids' i = some 0) ∧
+      (∀ i, i < g.L s → byteAt g'.p ids' i = byteAt g.p ids i) := by
+  have hmem : (s, startOf g.p s) ∈ g.p.starts := startIn_mem_of_ne hstart
+  obtain ⟨_, l, cl, hlen⟩ := j.rl (s, startOf g.p s) hmem hold
+  have hhead : startOf g.p s ∈ heads g.p g.L := by
+    unfold heads regs
+    apply List.mem_append_right
+    apply List.mem_map.mpr
+    refine ⟨(s, startOf g.p s), List.mem_filter.mpr ⟨hmem, ?_⟩, rfl⟩
+    simp [isRegStart, hold, hstart]
+  have hids : chainIds g.p (startOf g.p s) = .ok l := chainFrom_of_isChain j.jc.nc.ns hhead cl
+  obtain ⟨t, hlt⟩ := cl.head
+  have hhdl : hdl l = [startOf g.p s] := by rw [hlt]; rfl
+  -- the heads, with the stream's own head in front
+  have hown : ownOf g.p.starts g.L s = [startOf g.p s] := by
+    unfold ownOf
+    rw [← startOf_eq, if_pos ⟨hold, hstart⟩]
+  have nc : NC g.p.fat (hdl l ++ (cont g.p ++ regs (others g.p.starts s) g.L)) := by
+    refine (jc_n0 j.jc s).perm ?_
+    rw [hown, hhdl]
+    simp only [List.append_assoc]
+    rw [← List.append_assoc, ← List.append_assoc]
+    exact (List.perm_append_comm (l₁ := cont g.p) (l₂ := [startOf g.p s])).append_right _
+  have tr : Tr g.p.fat l := by
+    intro hd hh
+    rw [hhdl] at hh
+    simp only [List.mem_singleton] at hh
+    rw [hh]; exact cl
+  have hpres : Present g.p l := by
+    intro x hx
+    obtain ⟨w, hw, _⟩ := cl.used x hx
+    have hx1 : x < g.p.sectors.size := by
+      rw [j.jc.inv.fat.secs, ← j.jc.inv.fat.size]; exact lt_of_get hw
+    exact ⟨_, Array.getElem?_eq_getElem hx1⟩
+  obtain ⟨q, hq, hq2⟩ := obind_ok h
+  cases hq2
+  obtain ⟨ids', hl', tr', hhd', _, hz, hk⟩ :=
+    resize_regular_grow_zero j.jc.inv j.ss hstart hold hgrow hids _ nc tr (by exact hlen) hpres hq hb
+  exact ⟨l, ids', hids, tr', hhd', hl', hz, hk⟩
+
 
 end CfbVerif.Props.C08
